@@ -3,7 +3,7 @@
    which is run on binary64 against the library in every check. *)
 From Coq Require Import ZArith Floats.
 From mathcomp Require Import all_ssreflect all_algebra.
-From LS Require Import NumOps RcfOps F64Ops Kernels Preprocess KernelsSpec PreprocessSpec PreprocessSpec2 MinMaxSpec Gen_Params.
+From LS Require Import NumOps RcfOps F64Ops Kernels Preprocess KernelsSpec PreprocessSpec PreprocessSpec2 MinMaxSpec RangeSpec Gen_Params.
 Set Implicit Arguments. Unset Strict Implicit. Unset Printing Implicit Defensive.
 Import Order.TTheory GRing.Theory Num.Theory.
 Local Open Scope ring_scope.
@@ -74,6 +74,9 @@ Theorem C10_pareto_sdev (c : vec) a : cleanv c -> (0 < size c)%N -> 0 < col_sdev
   cleanv [seq (x - a) / Num.sqrt (col_sdev c) | x <- c] ->
   col_sdev [seq (x - a) / Num.sqrt (col_sdev c) | x <- c] = Num.sqrt (col_sdev c).
 Proof. exact: pareto_sdev. Qed.
+(* root-mean-square scaling: the stored scaling of a complete column is sqrt(sum x^2 / n) *)
+Theorem C10_rms_statistic (c : vec) : cleanv c -> col_rms c = Num.sqrt ((\sum_(x <- c) x ^+ 2) / (size c)%:R).
+Proof. exact: col_rms_clean. Qed.
 (* range scaling: the executable column minimum / maximum are observed cells bounding every observed cell, wherever the
    column lies (also entirely above the missing-value code, or entirely negative); so the stored range is the largest
    difference of two observed cells *)
@@ -81,6 +84,15 @@ Theorem C10_range_statistic (c : seq R) : obs c != [::] ->
   let mm := col_minmax c in
   [/\ mm.1 \in obs c, mm.2 \in obs c & all (fun y => (mm.1 <= y <= mm.2)%R) (obs c)].
 Proof. exact: col_minmax_spec. Qed.
+(* ... and the promised statistic of range scaling: on complete data with a positive range the transformed column
+   (x - a) / (max - min) has, by the same executable routine, minimum and maximum that are the images of the original ones and
+   a range of exactly 1 *)
+Theorem C10_range_scaled_unit_range (c : seq R) a : cleanv c -> c != [::] ->
+  let mm := col_minmax c in let s := (mm.2 - mm.1)%R in (0 < s)%R ->
+  cleanv [seq ((x - a) / s)%R | x <- c] ->
+  let mz := col_minmax [seq ((x - a) / s)%R | x <- c] in
+  [/\ mz.1 = ((mm.1 - a) / s)%R, mz.2 = ((mm.2 - a) / s)%R & (mz.2 - mz.1 = 1)%R].
+Proof. exact: range_scaled_unit_range. Qed.
 End Exact.
 
 (* the literals of the model are the constants the C source uses NOW (Gen_Params.v is
@@ -102,7 +114,9 @@ Proof. by vm_compute. Qed.
 
 Print Assumptions C10_zero_spread_is_zero.
 Print Assumptions C10_stored_are_statistics.
+Print Assumptions C10_rms_statistic.
 Print Assumptions C10_range_statistic.
+Print Assumptions C10_range_scaled_unit_range.
 Print Assumptions C10_apply_affine.
 Print Assumptions C10_tensor_blockwise.
 Print Assumptions C10_missing_independent_var.
